@@ -29,12 +29,15 @@ func (s *CBORSerializer) Serialize(msg wamp.Message) ([]byte, error) {
 
 // Deserialize decodes a cbor payload into a Message.
 func (s *CBORSerializer) Deserialize(data []byte) (wamp.Message, error) {
-	var v []any
-	err := codec.NewDecoderBytes(data, ch).Decode(&v)
+	var item any
+	err := codec.NewDecoderBytes(data, ch).Decode(&item)
 	if err != nil {
 		return nil, err
 	}
-	if len(v) == 0 {
+	// A message is a list. Decoding straight into a []any would also accept a
+	// map, which the codec flattens into key, value, key, value, ...
+	v, ok := item.([]any)
+	if !ok || len(v) == 0 {
 		return nil, errors.New("invalid message")
 	}
 
